@@ -446,6 +446,9 @@ class WFSA:
                 R = U[a]
                 W = sum(R.values(), start=self.R.zero)
 
+                if W == self.R.zero:
+                    continue  # no (non-zero) mass on this symbol
+
                 if 0:
                     # If we cannot extract a common factor, then all of the arcs will have weight one
                     yield a, frozendict(R), self.R.one
